@@ -250,10 +250,10 @@ func TestC15(t *testing.T) {
 		case 4:
 			if rapid.IntRange(0, 19).Draw(rt, "storm") == 0 {
 				// frames with text fields and description blocks (shared converters), a few others
-				p.Mode, p.Kind = "storm", rapid.SampledFrom([]string{"searchres", "descrres"}).Draw(rt, "storm-kind")
+				p.Mode, p.Kind = "storm", rapid.SampledFrom([]string{"searchres", "descrres", "connreq", "connres-ok"}).Draw(rt, "storm-kind")
 				p.Frame = common.GenFrame(rt, p.Kind, "")
 				for i := 0; i < rapid.IntRange(1, 7).Draw(rt, "storm-frames"); i++ {
-					k := rapid.SampledFrom([]string{"searchres", "descrres", "descrres", "tunnelreq", "routingind"}).Draw(rt, "storm-frame-kind")
+					k := rapid.SampledFrom([]string{"searchres", "descrres", "descrres", "tunnelreq", "routingind", "connreq", "connreq", "connres-ok"}).Draw(rt, "storm-frame-kind")
 					ck := ""
 					if common.CarriesCemi(k) {
 						ck = rapid.SampledFrom(common.CemiKinds).Draw(rt, "storm-cemikind")
